@@ -403,11 +403,12 @@ func main() {
 		if withCont {
 			directed = append(directed, scenarioWedge(), scenarioLaggards(true), scenarioLaggards(false), scenarioLoneLaggard(),
 				scenarioPulledThenOwnTimer(), scenarioLaggardAfterOwnTimeout(), scenarioFutureRoundProposalToLaggard(),
-				scenarioTimeoutsUpToCutoff(4, 0), scenarioTimeoutsUpToCutoff(7, 3))
+				scenarioTimeoutsUpToCutoff(4, 0), scenarioTimeoutsUpToCutoff(7, 3), scenarioBroadcastFailsAtRoundExpiry())
 		} else {
 			directed = append(directed, scenarioCompactionEquivocation(4, true), scenarioCompactionEquivocation(4, false),
 				scenarioCompactionEquivocation(7, true), scenarioCompactionEquivocation(7, false), scenarioCrossRole(),
-				scenarioStaleRoundJustification(), scenarioForgedKnownSigner(), scenarioCommitBroadcastFault(), scenarioRepeatedPrepareJustification())
+				scenarioStaleRoundJustification(), scenarioForgedKnownSigner(), scenarioCommitBroadcastFault(), scenarioRepeatedPrepareJustification(),
+				scenarioDecidedCompactedThenPulled())
 		}
 		for _, os := range directed {
 			for _, o := range os {
